@@ -59,6 +59,8 @@ class ConvRef(Monitor):
         free = w.spec.cap - w.held() - len(w.granted("p"))
         if free <= 0:
             return False
+        if w.granted("p"):
+            return False    # the item of that reservation still has to enter and move one item length first
         if self.order:
             last = self.order[-1]
             if self.s[last] < self.tau - TOL:
